@@ -244,6 +244,12 @@ func TestCheck(t *testing.T) {
 			hh.Trailing = hellogen.Bytes(rng, 1+rng.IntN(24))
 			try("trailing-bytes-in-body", hh.HelloRecord(0x0301), b.keys, len(hh.Trailing))
 		}
+		// bytes appended INSIDE the ECH extension after the payload vector (extension and all enclosing lengths adjusted)
+		{
+			hh := h.Clone()
+			hh.Exts[ei].Data = append(append([]byte{}, hh.Exts[ei].Data...), hellogen.Bytes(rng, 1+rng.IntN(70))...)
+			try("trailing-bytes-in-ech-extension", hh.HelloRecord(0x0301), b.keys, len(hh.Exts[ei].Data)-len(h.Exts[ei].Data))
+		}
 		// transplant: payload+enc of this hello inside another outer hello for the same key
 		if b.offer != nil {
 			o := echgen.DefaultOpts()
